@@ -142,11 +142,11 @@ def sqlalchemy_table(
                                                 ),
                                                 (
                                                     {
-                                                        "doc": (
-                                                            intermediate_repr[
-                                                                "doc"
-                                                            ].lstrip()
-                                                            + "\n\n"
+                                                        "doc": intermediate_repr[
+                                                            "doc"
+                                                        ].lstrip()
+                                                        + (
+                                                            "\n\n"
                                                             if intermediate_repr[
                                                                 "returns"
                                                             ]
